@@ -171,6 +171,9 @@ func init() {
 		}
 		// the assumption must be satisfiable together with the path condition
 		in.assume(c)
+		if in.pos < len(in.prefix) {
+			return nil // replaying the parent path's prefix: feasibility was established there
+		}
 		if r := in.sol.Check(); r == "unsat" {
 			panic(pathStop{"assume", "assumption infeasible"})
 		}
